@@ -91,18 +91,26 @@ def snapshot(tracks):
 def check_one(mido, specs, acc, via_file, long=None):
     if acc.evals % 97 == 0:
         failed_merge(mido, acc)
+    if VARIANT[0] == 'plain':
+        acc.ncase = getattr(acc, 'ncase', 0) + 1
     if VARIANT[0] == 'plain' and any(specs) and (
-            (acc.evals // 3) % 5 == 0 if long is None
+            acc.ncase % 4 == 0 if long is None
             else len(specs[0]) * len(specs) <= 400):
         # the same case with messages rebuilt from dicts (fresh, not interned
         # strings) and with frozen messages
-        for v in ('rebuilt', 'frozen'):
+        for v in ('rebuilt', 'frozen', 'shared'):
             VARIANT[0] = v
             try:
                 check_one(mido, specs, acc, via_file, long)
             finally:
                 VARIANT[0] = 'plain'
     tracks = [build_track(mido, ti, sp) for ti, sp in enumerate(specs)]
+    if VARIANT[0] == 'shared' and tracks:
+        # shared objects: the first message once more in its track, and the
+        # first track once more in the list
+        if len(tracks[0]):
+            tracks[0].append(tracks[0][0])
+        tracks.append(tracks[0])
     exp, total = expected(tracks)
     snap = snapshot(tracks)
     lens = [len(t) for t in tracks]
@@ -127,7 +135,7 @@ def check_one(mido, specs, acc, via_file, long=None):
            (('tracks-as-tuples+skip_checks',
              lambda: mido.merge_tracks(iter([tuple(t) for t in tracks]),
                                        skip_checks=True)),),
-           ())[acc.evals % 5]
+           ())[getattr(acc, 'ncase', 0) % 5]
     variants += list(alt)
     if via_file:
         variants.append(('MidiFile.merged_track',
